@@ -48,7 +48,19 @@ def contents():
     # "t": a structure with a non-covalently coupled system of three groups (1FTJ: Glu 193 and the two carboxylates of the
     # bound glutamate): with -d the order in which the system is walked must not depend on the interpreter's hash seed
     t = C.test_pdb_text("1FTJ-Chain-A")
-    return {"a": a, "u": u, "m": m, "c": c, "b": b, "f": "\ufeff" + a, "t": t}
+    # "p": a covalently coupled system of three groups two of which almost tie (methyl phosphate: O2 and O3 differ in the
+    # fourth decimal of their pKa through a few carbons placed almost on their mirror plane): which of them is penalised
+    # must not depend on the order a set of identity-hashed groups iterates in
+    k_ = 878
+    ph = [("P1", "P", 0, 0, 0), ("O1", "O", k_, k_, k_), ("O2", "O", k_, -k_, -k_), ("O3", "O", -k_, k_, -k_), ("O4", "O", -k_, -k_, k_),
+          ("C1", "C", -1703, -1703, 1703)]
+    bulk = [(4, 0, -4900), (2100, 2097, -5200), (-2100, -2102, -5200), (0, 3, -7300), (2300, 2300, -7600), (-2300, -2298, -7600)]
+    pl = [pdbio.atom_line("HETATM", i + 1, nm, " ", "MPH", "A", 1, " ", x + 20000, y + 20000, z + 20000, elem=el)
+          for i, (nm, el, x, y, z) in enumerate(ph)]
+    pl += [pdbio.atom_line("HETATM", 10 + i, "C%d" % (i + 1), " ", "BLK", "A", 2, " ", x + 20000, y + 20000, z + 20000, elem="C")
+           for i, (x, y, z) in enumerate(bulk)]
+    p = C.join(pl)
+    return {"a": a, "u": u, "m": m, "c": c, "b": b, "f": "\ufeff" + a, "t": t, "p": p}
 
 
 def options_for(cid, o, texts):
@@ -127,6 +139,7 @@ def run(ctx):
                        {"c": "f", "o": "default", "via": "main1", "mode": "path"}])
     for hs_ in (range(1, 9) if not ctx.thorough() else range(1, 25)):
         systematic.append([{"c": "t", "o": "d", "via": "single", "mode": "path", "hs": hs_}])
+        systematic.append([{"c": "p", "o": "default", "via": "single", "mode": "stream", "hs": hs_, "perm": True}])
     chosen = systematic + chosen
     texts = contents()
     files = {"custom.cfg": custom_cfg()}
@@ -145,7 +158,7 @@ def run(ctx):
         hfiles = dict(files)
         if cwdname == "D":
             hfiles["propka.cfg"] = custom_cfg()      # a parameter file of the same name as the shipped one in the cwd
-        jobs.append(("hist", {"inputs": texts, "files": hfiles, "steps": steps, "cwdname": cwdname, "hashperm": rng.choice([None, rng.randrange(10 ** 6)]),
+        jobs.append(("hist", {"inputs": texts, "files": hfiles, "steps": steps, "cwdname": cwdname, "hashperm": rng.randrange(1, 10 ** 6) if s[0].get("perm") else rng.choice([None, rng.randrange(10 ** 6)]),
                               "alloc": rng.randrange(0, 10 ** 6)},
                      s[0].get("hs", rng.choice([0, 1, 12345, rng.randrange(10 ** 6)]))))
     with ThreadPoolExecutor(max_workers=14) as ex:
